@@ -566,7 +566,7 @@ async fn exec_op(env: &Arc<Env>, c: u16, i: u16, op: Op, slots: &mut Vec<Slot>) 
         Op::AwaitLog { tag, what, count } => {
             begin(c, i, OpK::AwaitLog, Hk::None, Path::NA, tag, 0, 0, what as u64);
             let mut ok = false;
-            for _ in 0..2500 {
+            for _ in 0..1500 {
                 let n = log::count(|e| match (&e.k, what) {
                     (K::CbOut { cb: crate::log::Cb::Stopped, tag: t, .. }, 0) => *t == tag,
                     (K::HIn { mk: crate::log::Mk::Tick, tag: t, .. }, 1) => *t == tag,
